@@ -1540,6 +1540,7 @@ class PCE500Emulator:
             "irq_counts": dict(self.irq_counts),
             "last_irq": dict(self.last_irq),
             "irq_bit_watch": self.irq_bit_watch,
+            "key_irq_latched": bool(getattr(self, "_key_irq_latched", False)),
         }
 
         kb_metrics = {
@@ -1766,6 +1767,7 @@ class PCE500Emulator:
         irq_watch = interrupts.get("irq_bit_watch")
         if isinstance(irq_watch, dict):
             self.irq_bit_watch = irq_watch
+        self._key_irq_latched = bool(interrupts.get("key_irq_latched", False))
 
         kb_metrics = metadata.get("kb_metrics", {})
         self._kb_irq_count = int(kb_metrics.get("irq_count", 0))
